@@ -160,10 +160,12 @@ class Request:
 
         if sock is not None:
             name = sock.getpeername()
-            try:
-                ip, port = name
+            if isinstance(name, tuple):
+                # AF_INET: (host, port), AF_INET6: (host, port, flowinfo,
+                # scope_id)
+                ip, port = name[:2]
                 name = None
-            except ValueError:  # AF_UNIX
+            else:  # AF_UNIX
                 ip, port = None, None
             self.remote = Host(ip, port, name)
 
